@@ -380,6 +380,8 @@ func runWeb(ctx context.Context, hc *http.Client, base string, s *Script, callID
 		req.Header.Set("Grpc-Timeout", fmt.Sprintf("%dS", int(timeoutOf(s)/time.Second)))
 	case "long":
 		req.Header.Set("Grpc-Timeout", "5M")
+	case "short": // back-end availability lane
+		req.Header.Set("Grpc-Timeout", fmt.Sprintf("%dS", int(availShort/time.Second)))
 	}
 	req.Header.Set("X-Grpc-Web", "1")
 	if s.Gzip {
